@@ -114,12 +114,12 @@ def rustc_errors(stderr):
     return out
 
 
-def extract(config, repo=None, features=None):
+def extract(config, repo=None, features=None, th=None):
     """Return the path of the fact file for `config` (building it if necessary)."""
     repo = repo or REPO
     feats = features if features is not None else CONFIGS[config]
     build_driver()
-    th = tree_hash(repo)
+    th = th or tree_hash(repo)
     fdir = os.path.join(WORK, "facts", th)
     os.makedirs(fdir, exist_ok=True)
     out = os.path.join(fdir, config + ".json")
@@ -163,12 +163,13 @@ _cache = {}
 
 def load(config, repo=None):
     repo = repo or REPO
-    path = extract(config, repo)
+    # hashed before the build: cargo may rewrite a (git-ignored) Cargo.lock when Cargo.toml changed
+    th = tree_hash(repo)
+    path = extract(config, repo, th=th)
     if path in _cache:
         return _cache[path]
     with open(path) as fh:
         f = json.load(fh)
-    th = tree_hash(repo)
     if f.get("tree_hash") != th or f.get("config") != config:
         raise RuntimeError("stale fact file %s (tree hash %s, expected %s)" % (path, f.get("tree_hash"), th))
     facts = Facts(f, repo)
